@@ -80,7 +80,13 @@ func (propC01) Gen(seed uint64, ex map[string]bool) interface{} {
 			sc.Ops = append(sc.Ops, c01Op{K: "reg", E: e, P: p})
 			reg[[2]int{e, p}] = true
 		case c < 12:
-			sc.Ops = append(sc.Ops, c01Op{K: pick(r, []string{"render", "render", "render", "renderto"}), E: e, P: p})
+			op := c01Op{K: pick(r, []string{"render", "render", "render", "renderto"}), E: e, P: p}
+			if r.P(25) {
+				// render some other template of the program directly (a base layout, a partial, the macro library)
+				ts := sc.Progs[p].Templates
+				op.Name = ts[r.N(len(ts))].Name
+			}
+			sc.Ops = append(sc.Ops, op)
 		case c < 13:
 			sc.Ops = append(sc.Ops, c01Op{K: "regbad", E: e, Name: pick(r, []string{"main", "bad"}), Src: pick(r, []string{"{% if %}", "{{ 1 + }}", "{% for %}{% endfor %}", "{% block %}"})})
 		case c < 15:
@@ -210,17 +216,21 @@ func (propC01) Run(scI interface{}) *Outcome {
 			ce.e.SetDebug(op.On)
 			ce.debug = op.On
 		case "render", "renderto":
+			prMain := pr.Main
+			if op.Name != "" {
+				prMain = op.Name
+			}
 			ctx := BuildCtx(pr.Ctx, 0)
 			sp := newSpies()
 			ce.hub.per[0] = sp
 			reuseBefore = w.Stat[simrt.StPoolReuse]
 			var got Obs
 			if op.K == "render" {
-				got = observe(sp, func() (string, error) { return ce.e.Render(pr.Main, ctx) })
+				got = observe(sp, func() (string, error) { return ce.e.Render(prMain, ctx) })
 			} else {
 				got = observe(sp, func() (string, error) {
 					var yw yieldWriter
-					err := ce.e.RenderTo(&yw, pr.Main, ctx)
+					err := ce.e.RenderTo(&yw, prMain, ctx)
 					if err != nil {
 						return "", err
 					}
@@ -231,7 +241,7 @@ func (propC01) Run(scI interface{}) *Outcome {
 			withPristine(w, func() {
 				pe, hub := ce.pristine()
 				pctx := BuildCtx(pr.Ctx, 0)
-				want = observe(hub.per[0], func() (string, error) { return pe.Render(pr.Main, pctx) })
+				want = observe(hub.per[0], func() (string, error) { return pe.Render(prMain, pctx) })
 			})
 			o.Probes["renders_compared"]++
 			o.Probes["class_"+want.Class]++
@@ -241,7 +251,7 @@ func (propC01) Run(scI interface{}) *Outcome {
 			}
 			if got.Key() != want.Key() {
 				return fail("O1-pristine-replica", fmt.Sprintf("render differs from fresh engine: history=%s fresh=%s", got.Class, want.Class),
-					fmt.Sprintf("op #%d %s engine %d template %q\n history engine: %s\n fresh engine:   %s", oi, op.K, op.E, pr.Main, got, want))
+					fmt.Sprintf("op #%d %s engine %d template %q\n history engine: %s\n fresh engine:   %s", oi, op.K, op.E, prMain, got, want))
 			}
 			// O3: a sample is also rendered by a real fresh process built from the uninstrumented tree
 			if os.Getenv("VERIF_ONESHOT") != "" && w.Choose(48, "o3.sample") == 0 {
@@ -250,14 +260,14 @@ func (propC01) Run(scI interface{}) *Outcome {
 					all += src
 				}
 				if !reUsesMaps.MatchString(all) {
-					fresh, ok := runOneshot(&oneshotCase{Templates: ce.cur, Debug: ce.debug, Main: pr.Main, Ctx: pr.Ctx})
+					fresh, ok := runOneshot(&oneshotCase{Templates: ce.cur, Debug: ce.debug, Main: prMain, Ctx: pr.Ctx})
 					if !ok {
 						o.Probes["o3_could_not_run"]++
 					} else {
 						o.Probes["o3_fresh_process_renders"]++
 						if fresh.Key() != want.Key() {
 							return fail("O3-fresh-process", fmt.Sprintf("fresh process (uninstrumented tree) disagrees: process=%s replica=%s", fresh.Class, want.Class),
-								fmt.Sprintf("op #%d template %q\n fresh process: %s\n replica:       %s", oi, pr.Main, fresh, want))
+								fmt.Sprintf("op #%d template %q\n fresh process: %s\n replica:       %s", oi, prMain, fresh, want))
 						}
 					}
 				}
